@@ -117,13 +117,14 @@ def build4(m):
     m.predicate('CHILD_OF', ['c', 'p'], 'c.gparent == p')
     # gdepth: ghost level of a node below the traversal source (exists for every tree)
     m.predicate('TREE_DEPTH', [], "forall_ref('TNode', lambda p: implies(not is_none(p.children), "
-                                  "forall(lambda i: some(p.children)[i].gdepth == p.gdepth + 1 and some(p.children)[i].gparent == p, 0, len(some(p.children)))))")
-    PAIRS_OK = ('forall(lambda j: %s[j][1].gdepth == %s and CHILD_OF(%s[j][1], %s[j][0]), 0, len(%s))')
+                                  "forall(lambda i: some(p.children)[i].gdepth == p.gdepth + 1 and some(p.children)[i].gparent == p "
+                                  "and allocated(some(p.children)[i]), 0, len(some(p.children)))))")
+    PAIRS_OK = ('forall(lambda j: %s[j][1].gdepth == %s and CHILD_OF(%s[j][1], %s[j][0]) and allocated(%s[j][1]), 0, len(%s))')
     m.add(Contract('mistletoe.utils:traverse',
                    [('source', TN), ('klass', TOpt(TRef('Klass')), NONE_VAL), ('depth', TOpt(INT), NONE_VAL),
                     ('include_source', BOOL, mk_bool(False))], returns=None,
                    requires=['TREE_DEPTH()', 'source.gdepth == 0', 'is_none(depth) or some(depth) >= 0'],
-                   options={'concat_axioms': True, 'tier': 'thorough'},
+                   options={'concat_axioms': True},
                    yield_type=TTuple([TN, TOpt(TN), INT]),
                    yield_asserts=[('yielded[2] == yielded[0].gdepth', 'C12'),
                                   ('is_none(yielded[1]) or CHILD_OF(yielded[0], some(yielded[1]))', 'C12'),
@@ -132,11 +133,11 @@ def build4(m):
                    body_types={'next_children': TList(TTuple([TN, TN])), 'new_children': TList(TTuple([TN, TN]))},
                    loops={
                        0: Loop(invariant=['current_depth >= 0',
-                                          PAIRS_OK % ('next_children', 'current_depth + 1', 'next_children', 'next_children', 'next_children')]),
+                                          PAIRS_OK % ('next_children', 'current_depth + 1', 'next_children', 'next_children', 'next_children', 'next_children')]),
                        1: Loop(invariant=['current_depth >= 1',
                                           'implies(not is_none(depth), current_depth <= some(depth))',
-                                          PAIRS_OK % ('next_children', 'current_depth', 'next_children', 'next_children', 'next_children'),
-                                          PAIRS_OK % ('new_children', 'current_depth + 1', 'new_children', 'new_children', 'new_children')]),
+                                          PAIRS_OK % ('next_children', 'current_depth', 'next_children', 'next_children', 'next_children', 'next_children'),
+                                          PAIRS_OK % ('new_children', 'current_depth + 1', 'new_children', 'new_children', 'new_children', 'new_children')]),
                    }, prop=['C12']))
 
 
